@@ -168,7 +168,7 @@ theorem kernel_spec (T : F32Tables) (hT : IdentityTable T) (zero : α) (add : α
     (F := fun k d => storeRow T zero (accRow T zero add lookup M seq (a + k)) k d)
     (v := fun r c => (List.range M).foldl (fun v j => add v (val j (seq.getD (a + r + j) c 0))) zero)
   · intro k d; rw [storeRow_eq, storesWrite_rows]
-  · intro k d r c
+  · intro k _ d r c
     exact storeRow_getD T hT zero add lookup val hlook M seq (a + k) k d r c
 
 /-- an `f32` kernel whose look-up returns the PSSM entry for every in-alphabet symbol writes
@@ -233,7 +233,7 @@ theorem kernelU8_spec (zero : α) (add : α → α → α) (pssm : Mat α K) (se
       d.set k (Gen.Avx2Score.u8StoreOffset + c) ((accRowU8 zero add pssm seq (a + k)).getD c zero)) d)
     (v := fun r c => (accRowU8 zero add pssm seq (a + r)).getD c zero)
   · intro k d; exact segWrite_rows k Gen.Avx2Score.u8StoreOffset 32 _ d
-  · intro k d r c
+  · intro k _ d r c
     have := segWrite_getD k Gen.Avx2Score.u8StoreOffset 32
       (fun c => (accRowU8 zero add pssm seq (a + k)).getD c zero) d r c zero
     unfold segWrite at this
